@@ -288,7 +288,12 @@ func (d *Decoder) readObject(typ reflect.Type, cls ClassDef) (interface{}, error
 
 		// fmt.Printf("[%d]  >>>> start read field %s: %v, %v, %p\n", readObjectIndexCurr, fldName, vv.Type(), vv.Interface(), vv.Interface())
 		if err != nil {
+			// the wire class has a field the Go type lacks: its value is still on the stream and
+			// has to be consumed, or every later field and value is read from the wrong bytes
 			hlog.Debugf("%s is not found, will skip type ->p %v", fldName, typ)
+			if _, err = d.ReadData(); err != nil {
+				return nil, newCodecError("readObject", "failed to skip field '%s'", fldName, err)
+			}
 			continue
 		}
 		fldValue := st.Field(index)
